@@ -32,3 +32,119 @@ pub open spec fn first_is_root(l: Seq<LayerData>) -> bool {
     l.len() > 0 ==> l[0].child_level == 0
 }
 // @end
+
+// @section image
+/// shim for image::Rgba<u8> (R4)
+#[derive(Clone, Copy, PartialEq, Eq)]
+pub struct Rgba<T>(pub [T; 4]);
+
+/// shim for image::RgbaImage (R4): abstract width, height and pixel function; the three methods the
+/// rasterisers use carry the contracts of image::ImageBuffer (TRUSTED: assumed contract of a dependency).
+#[verifier::external_body]
+pub struct RgbaImage {
+    _p: core::marker::PhantomData<u8>,
+}
+
+impl RgbaImage {
+    pub uninterp spec fn w(&self) -> nat;
+    pub uninterp spec fn h(&self) -> nat;
+    pub uninterp spec fn at(&self, x: int, y: int) -> Rgba<u8>;
+
+    #[verifier::external_body]
+    pub fn dimensions(&self) -> (r: (u32, u32))
+        ensures r.0 == self.w(), r.1 == self.h(),
+    { unimplemented!() }
+
+    #[verifier::external_body]
+    pub fn width(&self) -> (r: u32)
+        ensures r == self.w(),
+    { unimplemented!() }
+
+    #[verifier::external_body]
+    pub fn height(&self) -> (r: u32)
+        ensures r == self.h(),
+    { unimplemented!() }
+
+    #[verifier::external_body]
+    pub fn get_pixel(&self, x: u32, y: u32) -> (r: &Rgba<u8>)
+        requires x < self.w(), y < self.h(),
+        ensures *r == self.at(x as int, y as int),
+    { unimplemented!() }
+
+    #[verifier::external_body]
+    pub fn put_pixel(&mut self, x: u32, y: u32, p: Rgba<u8>)
+        requires x < old(self).w(), y < old(self).h(),
+        ensures
+            final(self).w() == old(self).w(),
+            final(self).h() == old(self).h(),
+            forall|i: int, j: int| #![trigger final(self).at(i, j)]
+                final(self).at(i, j) == (if i == x && j == y { p } else { old(self).at(i, j) }),
+    { unimplemented!() }
+}
+
+/// the blend mode is passed through unchanged to the dispatch table (R3)
+#[derive(Clone, Copy, PartialEq, Eq)]
+pub struct BlendMode { pub id: u8 }
+
+/// what blending (mode, backdrop, source, opacity) yields – pinned to Aseprite's functions by the
+/// Kani obligations k_mode_* / k_normal_* and the dispatch table obligation x_mode_table
+pub uninterp spec fn spec_blend(mode: BlendMode, backdrop: Rgba<u8>, src: Rgba<u8>, opacity: u8) -> Rgba<u8>;
+
+pub struct BlendFn { pub mode: BlendMode }
+
+#[verifier::external_body]
+pub fn blend_mode_to_blend_fn(mode: BlendMode) -> (r: BlendFn)
+    ensures r.mode == mode,
+{ unimplemented!() }
+
+impl BlendFn {
+    #[verifier::external_body]
+    pub fn call(&self, backdrop: Rgba<u8>, src: Rgba<u8>, opacity: u8) -> (r: Rgba<u8>)
+        ensures r == spec_blend(self.mode, backdrop, src, opacity),
+    { unimplemented!() }
+}
+
+/// 8-bit rounded product round(a*b/255)
+pub open spec fn spec_round8(a: int, b: int) -> int {
+    (2 * a * b + 255) / 510
+}
+
+/// blend::mul_un8 under its contract (PROVED by the Kani obligation k_mul_un8 on the real function;
+/// assumed here so that the callers are checked against the contract, not the body)
+#[verifier::external_body]
+pub fn mul_un8(a: i32, b: i32) -> (r: u8)
+    requires 0 <= a <= 255, 0 <= b <= 255,
+    ensures r as int == spec_round8(a as int, b as int),
+{ unimplemented!() }
+// @end
+
+// @section raster_spec
+/// C02/C06: what compositing one raw cel onto a canvas must produce.
+pub open spec fn in_rect(cx: int, cy: int, x0: int, y0: int, w: int, h: int) -> bool {
+    x0 <= cx < x0 + w && y0 <= cy < y0 + h
+}
+
+pub open spec fn raw_cel_pixel(old_img: &RgbaImage, cel: &CelCommon, size: &ImageSize, pixels: Seq<Rgba<u8>>, mode: BlendMode, outer: u8, cx: int, cy: int) -> Rgba<u8> {
+    if in_rect(cx, cy, cel.x as int, cel.y as int, size.width as int, size.height as int) {
+        spec_blend(mode, old_img.at(cx, cy), pixels[(cy - cel.y) * size.width + (cx - cel.x)], spec_round8(outer as int, cel.opacity as int) as u8)
+    } else {
+        old_img.at(cx, cy)
+    }
+}
+// @end
+
+// @section arch
+// ASSUMPTION: 64-bit target (usize is 8 bytes)
+global size_of usize == 8;
+// @end
+
+// @section tilemap_spec
+/// C05 R-pre for tilemap rendering: what validation must establish.
+pub open spec fn tilemap_wf(tm: &TilemapData) -> bool {
+    tm.tiles.0.len() == (tm.width as int) * (tm.height as int)
+}
+pub open spec fn tiles_in_tileset(tm: &TilemapData, ts: &Tileset, npixels: int) -> bool {
+    forall|i: int| 0 <= i < tm.tiles.0.len() ==>
+        ((#[trigger] tm.tiles.0[i]).id.0 as int + 1) * ((ts.tile_size.width as int) * (ts.tile_size.height as int)) <= npixels
+}
+// @end
